@@ -63,6 +63,22 @@ class Verifier(Exec):
         self.last_anchor_line = {}
         self.unfolded = set()
 
+    def configure(self, spec):
+        """options that come from the function's contract block"""
+        self.spec = spec
+        if not spec:
+            return
+        self.wrap_types = set()
+        for w in spec.opts.get('wrap', []):
+            self.wrap_types |= set(w.replace(',', ' ').split())
+        self.track_init = any('init' in x.split() for x in spec.opts.get('track', []))
+        self.check_wide_ovf = any('int' in x.split() for x in spec.opts.get('ovf', []))
+        for x_ in spec.opts.get('track', []):
+            ws_ = x_.replace(',', ' ').split()
+            if ws_ and ws_[0] == 'own':
+                self.track_own = True
+                self.own_types |= set('OWN:' + w_ for w_ in ws_[1:])
+
     # ------------------------------------------------------------------ misc helpers used by SpecEval
     def rune_tid(self):
         return 'rune' if 'rune' in self.prog.types else 'int32'
@@ -940,6 +956,9 @@ class Verifier(Exec):
                 iname = 'INIT:' + self.elem_key(e)
                 ih = self.heap_get(st, iname, arr(arr(BOOL)))
                 st.heap[iname] = store(ih, a, constarr(ARR_IB, TRUE))
+            if getattr(self, 'track_own', False) and ('OWN:' + self.elem_key(e)) in self.own_types:
+                oh = self.heap_get(st, 'OWN:' + self.elem_key(e), arr(arr(BOOL)))
+                st.heap['OWN:' + self.elem_key(e)] = store(oh, a, constarr(ARR_IB, FALSE))
         else:
             self.zero_elems(st, e, a)
         return SliceV(a, ZERO, n, cp, e)
@@ -1033,12 +1052,26 @@ class Verifier(Exec):
         if decl is None:
             raise Unsupported('%s through %s is not a declared effect (line %d)' % (kind, what if fname is None else fname, self.cur_line))
         cl, etxt = decl
+        sets = None
+        ms = re.match(r'^(.*?)\s+sets\s+own\(arg(\d+)\)\s*$', etxt)
+        if ms:
+            etxt, sets = ms.group(1), int(ms.group(2))
         env = self.spec_env(self.scope_at_line(self.cur_line))
         t = SpecEval(self, st, env, self.old, cl.src).boolean(parse_expr(etxt))
         self.oblige(st, 'effect', '%s:%s' % (kind, fname), t, {'clause': '%s %s requires %s' % (kind, fname, etxt)}, cl.props)
+        return sets
 
     def effect_call(self, st, ins, fv, args):
-        self.effect_check(st, 'call', fv, 'function value')
+        sets = self.effect_check(st, 'call', fv, 'function value')
+        if sets is not None and self.track_own and isinstance(args[sets], SliceV):
+            # the consumer keeps the slice: its cells become owned
+            a_ = args[sets]
+            key = 'OWN:' + self.elem_key(a_.elem)
+            oh = self.heap_get(st, key, arr(ARR_IB))
+            ni = self.ctx.fresh('owned', ARR_IB)
+            k = const('k!', INT)
+            self.ctx.assume(forall([k], eq(select(ni, k), or_(and_(le(a_.off, k), lt(k, add(a_.off, a_.len))), select(select(oh, a_.arr), k))), [select(ni, k)]))
+            st.heap[key] = store(oh, a_.arr, ni)
         rt = ins.get('type')
         na = self.ctx.fresh('alloc', INT)
         self.ctx.assume(le(st.alloc, na))
@@ -1094,6 +1127,12 @@ class Verifier(Exec):
         # frame: havoc what the callee may modify
         if regs:
             self.check_call_frame(st, regs)
+            if self.track_own:
+                for r_ in regs:
+                    if r_[0] == 'slice' and ('OWN:' + r_[1]) in self.own_types:
+                        et_ = [t_ for t_ in self.prog.types if self.prog.types[t_]['kind'] == 'basic' and self.elem_key(t_) == r_[1]]
+                        if et_:
+                            self.own_check(st, et_[0], r_[2], r_[3], r_[4])
             self.havoc_regions(st, regs, 'call')
         # result
         rt = ins['type']
@@ -1321,6 +1360,7 @@ class Verifier(Exec):
                 st2 = st.copy()
                 st2.pc = and_(st.pc, fits)
                 self.frame_check_elem(st2, e, s.arr, add(s.off, s.len))
+            self.own_check(st, e, s.arr, add(s.off, s.len), add(s.off, s.len, ONE), fits)
             self.ctx.assume(forall([k], implies(and_(le(ZERO, k), lt(k, s.len)), eq(select(select(h, na), k), select(select(h, s.arr), add(s.off, k)))), [select(select(h, na), k)]))
             val_ = select(select(h, t.arr), t.off)
             darr = self.ctx.name('app.arr', ite(fits, s.arr, na))
@@ -1333,6 +1373,7 @@ class Verifier(Exec):
                 st.heap[iname] = store(ih, darr, store(select(ih, darr), add(doff, s.len), TRUE))
             return SliceV(darr, doff, n, self.ctx.name('app.cap', ite(fits, s.cap, newcap)), e)
         # in-place branch: elements [s.off+s.len, s.off+n) of s.arr overwritten with t's elements (memmove semantics)
+        self.own_check(st, e, s.arr, add(s.off, s.len), add(s.off, n), fits)
         na = self.new_addr(st, 'app')
         src_inner = select(h, t.arr)
         old_inner = select(h, s.arr)
@@ -1464,6 +1505,7 @@ class Verifier(Exec):
         if not self.is_scalar(e):
             raise Unsupported('copy of aggregate elements')
         n = self.ctx.name('copyn', ite(le(d.len, s.len), d.len, s.len))
+        self.own_check(st, e, d.arr, d.off, add(d.off, n))
         name = self.hs_name(e)
         h = self.heap_get(st, name, self.hs_sort(e))
         if self.opts.get('ground'):
@@ -1567,7 +1609,21 @@ class Verifier(Exec):
                 a = self.new_addr(st, 'loc:' + (ins.get('comment') or n))
                 saved = self.writable, self.loop_writes
                 self.writable, self.loop_writes = None, []
-                self.obj_store(st, ins['elem'], a, self.zero(ins['elem']))
+                et_ = ins['elem']
+                if self.kind(et_) == 'array' and self.is_scalar(self.U(et_)['elem']):
+                    # (possibly large) zeroed array of scalars, e.g. the backing store of make([]byte, N) with constant N
+                    ee = self.U(et_)['elem']
+                    name_ = self.hs_name(ee)
+                    h_ = self.heap_get(st, name_, self.hs_sort(ee))
+                    st.heap[name_] = store(h_, a, constarr(arr(self.sort_of(ee)), FALSE if self.is_bool(ee) else ZERO))
+                    if self.track_init:
+                        ih_ = self.heap_get(st, 'INIT:' + self.elem_key(ee), arr(arr(BOOL)))
+                        st.heap['INIT:' + self.elem_key(ee)] = store(ih_, a, constarr(ARR_IB, TRUE))
+                    if getattr(self, 'track_own', False) and ('OWN:' + self.elem_key(ee)) in self.own_types:
+                        oh_ = self.heap_get(st, 'OWN:' + self.elem_key(ee), arr(arr(BOOL)))
+                        st.heap['OWN:' + self.elem_key(ee)] = store(oh_, a, constarr(ARR_IB, FALSE))
+                else:
+                    self.obj_store(st, et_, a, self.zero(et_))
                 self.writable, self.loop_writes = saved
                 r = PtrV(a, ins['elem'])
         elif op == 'Store':
